@@ -55,6 +55,7 @@ THEOREMS = [
     "C12.unclosed_frame_loses",
     "C12.script_as_stmts",
     "C12.same_effect_framed",
+    "C12.c18_framing_is_framed",
 ]
 PARTIAL = {
     "C12.same_effect_partial": (
